@@ -241,6 +241,10 @@ func (i *interpreter) makeError(fr *frame, text value) value {
 
 const symPlaceholder = "⟦sym⟧"
 
+// outcomeGoodText is the rule text that stands for "whatever the user sent"
+// when the harness chooses the front end's outcome itself (C10).
+const outcomeGoodText = "rule \"b\" \"nb\" salience 7\nbegin\n ver(\"b\", 2)\nend\nrule \"x\" \"nx\" salience 3\nbegin\n ver(\"x\", 2)\nend\n"
+
 // toNative converts an interpreter value into a Go value that fmt prints the
 // way the target program would (errors and Stringers through their methods).
 func (i *interpreter) toNative(v value) interface{} {
@@ -624,6 +628,13 @@ func (i *interpreter) vndExternal(name string) externalFn {
 		return func(fr *frame, a []value) value { fr.i.requireJoined(a[0].(string)); return nil }
 	case "NoRaces":
 		return func(fr *frame, a []value) value { fr.i.noRaces(a[0].(string)); return nil }
+	case "OutcomeText":
+		return func(fr *frame, a []value) value {
+			i := fr.i
+			i.bridge.forced = []value{a[0], a[1], a[2]}
+			i.stub("parser outcome chosen by the harness (nondeterministic front end)")
+			return outcomeGoodText
+		}
 	case "StopIfViolated":
 		return func(fr *frame, a []value) value {
 			if len(fr.i.res.Violations) > 0 {
